@@ -150,6 +150,59 @@ def main(tier, seed):
                     direct_bad.append({"kind": "failing-input", "why": f"files left behind after an operation failed with an I/O error: {fr['left']}",
                                        "history": hist, "op": op, "auto_index": auto, "fault": fmode, "at_call": k,
                                        "call": list(rec["events"][k][1:3]), "outcome": fr.get("out")})
+    # reads on a database object AFTER close() / after its with-block: whether they raise or answer, the file stays byte for byte what it was
+    import os as _os
+    import tempfile as _tempfile
+    from datetime import datetime as _dt, timedelta as _td, timezone as _tz
+    closed_runs = 0
+
+    def quiet(fn):
+        import contextlib, io
+        with contextlib.redirect_stdout(io.StringIO()):
+            return fn()
+    for amode in (None, "r+", "r", "a", "w+"):
+        for auto in (True, False):
+            d = ck.work / f"closed_{amode}_{int(auto)}"
+            d.mkdir()
+            tdir = d / "tmp"
+            tdir.mkdir()
+            path = str(d / "db.csv")
+            pts = [tf.Point(time=_dt(2020, 1, 1, tzinfo=_tz.utc) + _td(seconds=i), measurement="m1", tags={"k": str(i)}, fields={"a": float(i)}) for i in range(4)]
+            old_tmp = _tempfile.tempdir
+            _tempfile.tempdir = str(tdir)
+            try:
+                if amode in ("r", "a") or amode is None or amode == "r+":
+                    with tf.TinyFlux(path) as db0:
+                        db0.insert_multiple(pts)
+                try:
+                    db = tf.TinyFlux(path, auto_index=(auto and amode != "a"), **({"access_mode": amode} if amode else {}))
+                except Exception:
+                    continue
+                if amode == "w+":
+                    db.insert_multiple(pts)          # w+ starts from an empty file: fill it in the same session
+                db.close()
+                before = open(path, "rb").read()
+                reads = [("all", lambda: db.all()), ("iteration", lambda: list(db)), ("search", lambda: db.search(tf.TagQuery().k == "1")),
+                         ("count", lambda: db.count(tf.FieldQuery().a >= 0)), ("len", lambda: len(db)), ("get_timestamps", lambda: db.get_timestamps()),
+                         ("get_tag_keys", lambda: db.get_tag_keys()), ("reindex", lambda: quiet(db.reindex)), ("measurement.all", lambda: db.measurement("m1").all()),
+                         ("remove matching nothing", lambda: db.remove(tf.TagQuery().k == "nope")), ("contains", lambda: db.contains(tf.TagQuery().k == "2"))]
+                for name, fn in reads:
+                    try:
+                        fn()
+                        outcome = "returned"
+                    except BaseException as e:  # noqa
+                        outcome = type(e).__name__
+                    closed_runs += 1
+                    after = open(path, "rb").read() if _os.path.exists(path) else None
+                    left = sorted(_os.listdir(tdir)), sorted(x for x in _os.listdir(d) if x not in ("db.csv", "tmp"))
+                    if (after != before or left != ([], [])) and len(direct_bad) < 4:
+                        direct_bad.append({"kind": "failing-input", "operation_kind": f"{name} after close()", "access_mode": amode or "r+", "auto_index": auto,
+                                           "why": "a read on a closed database changed the bytes of the database file" if after != before
+                                                  else f"files left behind by a read on a closed database: {left}",
+                                           "outcome": outcome, "bytes_before": len(before), "bytes_after": len(after or b"")})
+                        break
+            finally:
+                _tempfile.tempdir = old_tmp
     # tie: the model's plan for the operation is a pure plan exactly for the pure kinds, the completed script leaves a clean
     # world, and its disk is what the file decodes to
     f = ck.work / "cases_c15.v"
@@ -187,10 +240,10 @@ def main(tier, seed):
             "run-time proxies harness/ioproxy.py; byte comparison of the database file and listings of a private temp directory and the database directory",
             "Print Assumptions: " + json.dumps(b["assumptions"])],
         "theorems": b["theorems"], "forbidden_tokens_found": b["forbidden"],
-        "evaluations": n + fault_runs, "fault_injections": fault_runs, "distinct_nontrivial": len(seen),
+        "evaluations": n + fault_runs + closed_runs, "fault_injections": fault_runs, "reads_on_a_closed_database": closed_runs, "distinct_nontrivial": len(seen),
         "rule": "sampled (history, operation) pairs on a CSV database reopened in access modes r+ / r / a / w+; operation kinds: reads, getters, "
                 "reindex, len/iteration, handle reads, removals and updates that match or change nothing, and (for the leftover rule and read-only modes) real "
-                "writes including ones that raise; checked directly: bytes of the file before/after, listing of a private temp directory (every second case "
+                "writes including ones that raise; reads / getters / reindex / a no-match removal on a database object after close() in every access mode; checked directly: bytes of the file before/after, listing of a private temp directory (every second case "
                 "on another filesystem) and of the database directory before/after; distinct by (kind, mode, operation)",
         "cases_by_kind_and_mode": stats, "temp_dir_on_other_filesystem_available": iotie.other_fs_tmp(str(ck.work / "x")).startswith("/dev/shm"),
         "traces_validated_against_impl": sum(nums) if nums else 0, "model_cases": len(coq_cases),
